@@ -103,6 +103,16 @@ pub fn test_case(c: &Case, ctx: Option<&Ctx>) -> Result<CaseInfo, Fail> {
     let run = run_attack(&c.attack, &ExecCfg { record_probes: true, step_budget: 600_000 });
     let n = c.attack.base.n();
     let judged: Vec<usize> = if c.honest_only { (0..n).collect() } else { c.attack.honest_parties() };
+    // the evaluator must be able to open exactly one row per AND gate and garbler with what it holds
+    if let Some(pr) = run.res.probes.iter().find(|p| p.site == "eval_extra_row") {
+        let garbler = (pr.val >> 64) as usize;
+        if c.honest_only || garbler != c.attack.corrupt {
+            return Err(Fail::new(
+                "C07|second-row-opens",
+                format!("with the labels it holds the evaluator can decrypt a second row (row {}) of the garbled gate at instruction {} of garbler {garbler}: it obtains both labels of a wire (n={n}, origin={})", pr.val & 0xff, (pr.val >> 8) & 0xffff_ffff, c.origin),
+            ));
+        }
+    }
     let (bytes, nfields, hits) = scan(&run.res, &judged, c.three_subsets);
     for (sig, e) in hits {
         let f = Fail::new(
@@ -126,7 +136,7 @@ pub fn test_case(c: &Case, ctx: Option<&Ctx>) -> Result<CaseInfo, Fail> {
 
 pub fn run(tier: Tier, seed: u64) -> i32 {
     let ctx = Ctx::new("C07", tier, seed, "fault_enumeration");
-    ctx.set_rule("pool scan over (i) proptest-generated honest runs (circuits with NOT gates, n in 2..4, all roles) and (ii) the enumerated deviations of the C04 table (incl. every-batch persistent variants and taps) and of the C03 table; pool = every byte any party put on the wire plus the labels the evaluator decrypted (probe); oracle: for every honest party's global key (probe) - not present at any byte offset in either byte order, no two 16-byte windows (all offsets) XOR to it, no three decoded 128-bit fields XOR to it (runs with <= 6000 fields); aborted runs count (bytes already sent); non-trivial = the judged party sent keyed values (aBit stage reached)");
+    ctx.set_rule("pool scan over (i) proptest-generated honest runs (circuits with NOT gates, n in 2..4, all roles) and (ii) the enumerated deviations of the C04 table (incl. every-batch persistent variants and taps) and of the C03 table; pool = every byte any party put on the wire plus the labels the evaluator decrypted (probe); oracle: for every honest party's global key (probe) - not present at any byte offset in either byte order, no two 16-byte windows (all offsets) XOR to it, no three decoded 128-bit fields XOR to it (runs with <= 6000 fields); and the evaluator, trying the labels it holds on the three other rows of every garbled gate (hook), opens none of them; aborted runs count (bytes already sent); non-trivial = the judged party sent keyed values (aBit stage reached)");
     ctx.assume("chance hit probability <= F^3 * 2^-128");
     // (i) honest runs
     let cp = CaseParams { circ: CircParams { n_min: 2, n_max: 4, max_gates: 25, ..Default::default() }, all_scheds: false, caps: vec![0], tmp: false };
